@@ -256,6 +256,7 @@ def gen_accepted(rng, idx):
     # non-entry modules with their own Main.main (every such main is a specialisation root)
     nmain = rng.weighted([(0, 2), (1, 3), (2, 3)])
     cellmod = where["Cell"]
+    auxnames = rng.pick([["aux.Side0", "aux.Side1"], ["aux", "aux.Side1"], ["Main.Aux", "Main.Aux.More"], ["Txt.Extra", "Txt.Extra.Extra"]])
     for k in range(nmain):
         body = rng.pick([
             'let c = Cell.init(true); let _ = Process.println(if c.get() { "yes" } else { "no" });',
@@ -263,7 +264,7 @@ def gen_accepted(rng, idx):
             'let c = Cell.init(Cell.init(3)); let _ = Process.println(Str.fromInt(c.get().get()));',
             'let c = Cell.init((1, true)); let (a, _) = c.get(); let _ = Process.println(Str.fromInt(a));',
         ])
-        src[f"aux.Side{k}"] = f"import {{ Cell }} from {cellmod};\nclass Main {{\n  function main(): unit = {{ {body} }}\n}}\n"
+        src[auxnames[k]] = f"import {{ Cell }} from {cellmod};\nclass Main {{\n  function main(): unit = {{ {body} }}\n}}\n"
     if rng.chance(1, 2):
         # mutually recursive enums used by two Main.main in opposite order (C12-F3 shape)
         src["mut.T"] = ("class Ma(NilA, ConsA(Mb)) {\n  method tag(): int = match (this) { NilA -> 0, ConsA(_) -> 1 }\n}\n"
@@ -271,11 +272,14 @@ def gen_accepted(rng, idx):
                         "class Mc(OnlyC(Mb)) {\n  method tag(): int = match (this) { OnlyC(b) -> b.tag() + 2 }\n}\n"
                         "class Mx(OnlyX(My)) {\n  function mk(): Mx = Mx.OnlyX(My.NilY())\n  method depth(): int = match (this) { OnlyX(y) -> y.depth() + 1 }\n}\n"
                         "class My(NilY, ConsY(Mx)) {\n  method depth(): int = match (this) { NilY -> 0, ConsY(x) -> x.depth() + 1 }\n}\n")
-        src["mut.Side"] = ("import { Ma, Mb, Mc, Mx, My } from mut.T;\nclass Main {\n  function main(): unit = { let x0 = Mx.mk(); let _ = Process.println(Str.fromInt(x0.depth())); let y = My.ConsY(Mx.OnlyX(My.NilY())); let _ = Process.println(Str.fromInt(y.depth())); let c = Mc.OnlyC(Mb.NilB()); let b = Mb.ConsB(Ma.NilA()); "
+        side = rng.pick(["mut.Side", "Main.Side", "Main.Main", "Main.Side.Deep"])     # `Main.*`: the entry module's name is a prefix
+        src[side] = ("import { Ma, Mb, Mc, Mx, My } from mut.T;\nclass Main {\n  function main(): unit = { let x0 = Mx.mk(); let _ = Process.println(Str.fromInt(x0.depth())); let y = My.ConsY(Mx.OnlyX(My.NilY())); let _ = Process.println(Str.fromInt(y.depth())); let c = Mc.OnlyC(Mb.NilB()); let b = Mb.ConsB(Ma.NilA()); "
                            "let a = Ma.ConsA(Mb.NilB()); let _ = Process.println(Str.fromInt(b.tag() + a.tag() + c.tag())); }\n}\n")
         extra_imports.append("import { Ma, Mb, Mc, Mx, My } from mut.T;")
         # the entry main mentions My first, the side main Mx first (Mx.mk()): opposite demand orders
-        extra_calls.append(" Process.println(Str.fromInt(My.NilY().depth())); Process.println(Str.fromInt(Mx.OnlyX(My.ConsY(Mx.mk())).depth()));")
+        extra_calls.append(" Process.println(Str.fromInt(My.NilY().depth())); Process.println(Str.fromInt(Mx.OnlyX(My.ConsY(Mx.mk())).depth()));"
+                           # `==` on objects is reference identity: true iff ConsY is laid out unboxed over its payload
+                           " let sharedX = Mx.mk(); Process.println(if My.ConsY(sharedX) == My.ConsY(sharedX) { \"same cell\" } else { \"different cells\" });")
         extra_calls.append(" Process.println(Str.fromInt(Ma.ConsA(Mb.NilB()).tag() * 10 + Mb.ConsB(Ma.NilA()).tag()));"
                            " Process.println(Str.fromInt(Mc.OnlyC(Mb.ConsB(Ma.NilA())).tag()));")
     main = scopegen.main_class(p)
@@ -386,6 +390,9 @@ def gen_rejected_longnames(rng, idx):
     select by those identifiers (missing members, unbound fields, counterexample choice)."""
     nmod = rng.range(2, 4)
     names = []
+    if rng.chance(1, 2):
+        b = rng.pick(NAME_PARTS_LONG)
+        names = [b, f"{b}.{rng.pick(NAME_PARTS_LONG + NAME_PARTS_SHORT)}"]
     while len(names) < nmod:
         x = ".".join([rng.pick(NAME_PARTS_SHORT)] * rng.below(2) + [rng.pick(NAME_PARTS_LONG) + rng.pick(["", "0", "1"])])
         if x not in names:
@@ -724,7 +731,7 @@ def check_program(ctx, prog, rng, nproc, stats, label, shrink=True):
                "runs": [{"order": o, "threads": THREADS[k % len(THREADS)], "verdict": a.get("verdict"),
                          "diag": a.get("diag", "")[:3000], "wasm": a.get("wasm"), "ts": a.get("tsrun")}
                         for k, (o, a) in enumerate(zip(o2, a2))][:10]}
-    internal = r2[0].startswith(("enum layouts differ", "unoptimised MIR differs"))
+    internal = r2[0].startswith(("enum layouts differ", "unoptimised MIR differs", "order of the specialisation roots"))
     if internal:
         # no observable difference on this program: the tie to layout_sorted_roots_perm_invariant /
         # mir_rename_invariant_full is broken, a behaviour-level failing input was not found
@@ -776,6 +783,10 @@ def compare(ctx, prog, answers, orders, stats):
             stats["mir0_equal" if eq0 else ("mir0_differs_multicapture" if mc else "mir0_differs")] += 1
             stats["mir1_equal" if eq1 else ("mir1_differs_multicapture" if mc else "mir1_differs")] += 1
             stats["traces"] += len(with_mir)
+        roots = {re.search(r"(?m)^sources\.mains = .*$", a["mir0"]).group(0) if "sources.mains" in a["mir0"] else "" for a in with_mir}
+        if len(roots) > 1:
+            return ("order of the specialisation roots (sources.mains) differs between processes: " + " | ".join(sorted(roots))[:300],
+                    classify_behaviour_diff(ctx, prog, answers))
         lay = {tuple(variant_lines(a["mir0"])) for a in with_mir}
         if len(lay) > 1:
             # enum layouts (by type name) must be the same in every process, multi-capture or not
@@ -1101,18 +1112,31 @@ NAME_PARTS_LONG = ["ModuleWithLongNameAlpha", "ModuleWithLongNameBeta", "sixteen
                    "AnotherVeryLongPackageName", "ModuleWithLongName"]                 # > 15 bytes (heap PStr)
 
 
-def gen_module_names(rng, n):
-    """n distinct dotted module names mixing inline (<= 15 bytes) and heap (> 15 bytes) parts."""
+def gen_module_names(rng, n, importable=True):
+    """n distinct dotted module names mixing inline (<= 15 bytes) and heap (> 15 bytes) parts. Every
+    set contains prefix-related families (`X`, `X.Y`, `X.Y.Z`, `X.X`: part-wise and whole-string
+    comparison differ there: a part-wise zip without length comparison ties) and, for modules that
+    nobody imports (`importable=False`), pairs on which printed-name order and part-wise order
+    disagree (`A-B` < `A.B` as strings because `-` < `.`, but `A` < `A-B` part-wise)."""
     out = []
+    def add(x):
+        if x not in out and len(out) < n:
+            out.append(x)
+    base = rng.pick(NAME_PARTS_LONG if rng.chance(1, 2) else NAME_PARTS_SHORT)
+    sub = rng.pick(NAME_PARTS_SHORT + NAME_PARTS_LONG)
+    fam = rng.pick([[base, f"{base}.{sub}"], [base, f"{base}.{base}"], [f"{base}.{sub}", f"{base}.{sub}.{rng.pick(NAME_PARTS_SHORT)}", base],
+                    [f"pkg.{base}", f"pkg.{base}.{sub}"]])
+    if not importable and rng.chance(1, 2):
+        fam = fam + [f"{base}-{sub}"]
+    for x in rng.shuffle(fam):
+        add(x)
     while len(out) < n:
         k = rng.weighted([(1, 5), (2, 3), (3, 1)])
         parts = [rng.pick(NAME_PARTS_LONG if rng.chance(1, 2) else NAME_PARTS_SHORT) for _ in range(k)]
         if rng.chance(1, 4):
             parts[-1] += str(rng.below(3))
-        name = ".".join(parts)
-        if name not in out:
-            out.append(name)
-    return out
+        add(".".join(parts))
+    return rng.shuffle(out)
 
 
 def ordkey_leg(ctx, stats):
@@ -1123,7 +1147,7 @@ def ordkey_leg(ctx, stats):
     n = ctx.scale(60, 600)
     lines, mlines = [], []
     for _ in range(n):
-        names = gen_module_names(rng, rng.range(2, 6))
+        names = gen_module_names(rng, rng.range(2, 6), importable=False)
         hx = ";".join(hexs(x) for x in names)
         idx = list(range(len(names)))
         lines += [f"po {','.join(map(str, rng.shuffle(idx)))} {hx}", f"po {','.join(map(str, rng.shuffle(idx)))} {hx}"]
@@ -1152,6 +1176,47 @@ def ordkey_leg(ctx, stats):
                           dict(payload, broken="correspondence ordkey"), no_input=True)
             return
     stats["ordkey"] = {"name_sets": n, "with_two_or_more_long_named_modules": long_cases}
+
+def encoded_main(name):
+    return "_" + name.replace("-", "_").replace(".", "$") + "_Main$main"
+
+
+def lowering_order_leg(ctx, stats):
+    """The order in which HIR lowering walks the modules = the order of the specialisation roots =
+    `sources.mains` of the MIR dump when every module defines Main.main.  For generated name sets
+    (always with prefix-related and `-`/`.` families) the order observed in 8 fresh processes (fresh
+    HashMap seeds, permuted allocation order, different thread counts) must be identical and be the
+    printed-name order (`sSort lexLt`, lowering_order_perm_invariant)."""
+    rng = ctx.rng.fork()
+    n = ctx.scale(10, 80)
+    fixed = [["App", "App.Tools", "Shapes"], ["A", "A.A", "A.A.A", "A.B", "A-B", "AB"],
+             ["ModuleWithLongNameAlpha", "ModuleWithLongNameAlpha.ModuleWithLongNameAlpha", "ModuleWithLongNameAlpha.B", "ModuleWithLongName"]]
+    sets = fixed + [gen_module_names(rng, rng.range(3, 6), importable=False) for _ in range(n)]
+    jobs, meta = [], []
+    for names in sets:
+        prog = {"sources": {m: f"class Main {{\n  function main(): unit = Process.println(\"{k}\")\n}}\n" for k, m in enumerate(names)},
+                "entry": names[0], "std": False}
+        for k in range(8):
+            jobs.append((mk_req(prog, rng.shuffle(names), mir=True), THREADS[k % len(THREADS)]))
+        meta.append(names)
+    answers = run_configs(jobs)
+    stats["evaluations"] += len(answers)
+    for i, names in enumerate(meta):
+        got = []
+        for a in answers[8 * i:8 * i + 8]:
+            m = re.search(r"(?m)^sources\.mains = \[(.*)\]$", a.get("mir0", ""))
+            got.append(m.group(1) if m else f"<{a.get('verdict')}: {a.get('diag', '')[:80]}>")
+        want = ", ".join(encoded_main(x) for x in sorted(names, key=lambda x: x.encode()))
+        payload = {"protocol": "lowering-order", "module_names": names, "observed_root_orders": sorted(set(got)), "printed_name_order": want,
+                   "sources": {m: "class Main { function main(): unit = {} }" for m in names}}
+        if len(set(got)) > 1:
+            ctx.violation("HIR lowering walks the same modules in a different order in different fresh processes (order of the specialisation roots; "
+                          "decides synthetic numbering and enum layout choice)", payload)
+            return
+        if got[0] != want:
+            ctx.violation("HIR lowering does not walk the modules in module-name order", payload)
+            return
+    stats["lowering_order"] = {"name_sets": len(sets), "processes_per_set": 8}
 
 # --------------------------------------------------------------------------- shared temp counter / thread schedule
 
@@ -1260,6 +1325,7 @@ def run(ctx):
     layout_leg(ctx, stats)
     cex_leg(ctx, stats)
     ordkey_leg(ctx, stats)
+    lowering_order_leg(ctx, stats)
     tempctr_leg(ctx, stats)
     schedule_leg(ctx, stats)
     rng = ctx.rng
@@ -1320,7 +1386,7 @@ def run(ctx):
                 "underconstrained generics, or-pattern bindings, struct bindings, private access)",
         "samples": samples, "traces_validated_against_impl": stats["traces"] + stats.get("errset_ok", 0) + stats.get("layout_ok", 0),
         "generators_available": {"scopegen": scopegen is not None},
-        "parse_order_correspondence": stats.get("ordkey"),
+        "parse_order_correspondence": stats.get("ordkey"), "lowering_order_observation": stats.get("lowering_order"),
         "temp_counter_correspondence": stats.get("tempctr"), "threads_1_vs_16": stats.get("schedule"),
         "counterexample_search_permuted_maps": stats.get("cex", stats.get("cex_skipped")),
         "layout_cases_ok": stats.get("layout_ok", 0), "layout_cases_skipped": stats.get("layout_skipped", 0),
